@@ -132,9 +132,12 @@ def refineLoop (d : Dfa) : Nat → List Block → List Block → Option (List Bl
     let (p', w') := refineByAlphabet d a d.alphabet (p, w)
     refineLoop d fuel p' w'
 
+/-- `state_mappings`: index of the first class containing the state -/
+def classOf (p : List Block) (s : Nat) : Nat := (p.findIdx? fun b => b.contains s).getD 0
+
 /-- `recreate_graph`.  `pick` stands for `HashSet::iter().next()` on a class. -/
 def recreate (d : Dfa) (pick : Block → Nat) (p : List Block) : Dfa :=
-  let classOf (s : Nat) : Nat := (p.findIdx? fun b => b.contains s).getD 0
+  let classOf (s : Nat) : Nat := Dfa.classOf p s
   let edges := p.flatMap fun b =>
     let src := pick b
     (d.outEdges src).map fun e => (⟨classOf src, classOf e.dst, e.label⟩ : Edge)
@@ -146,12 +149,14 @@ def recreate (d : Dfa) (pick : Block → Nat) (p : List Block) : Dfa :=
 
 def minFuel (d : Dfa) : Nat := 2 * d.nodes + 4
 
+/-- the partition `minimize` hands to `recreate_graph` (empty classes removed) -/
+def minimizePartition (d : Dfa) : Option (List Block) :=
+  let p := initialPartition d
+  (refineLoop d (minFuel d) p p).map fun p' => p'.filter fun b => !b.isEmpty
+
 /-- `minimize` -/
 def minimize (d : Dfa) (pick : Block → Nat) : Option Dfa :=
-  let p := initialPartition d
-  match refineLoop d (minFuel d) p p with
-  | none => none
-  | some p' => some (recreate d pick (p'.filter fun b => !b.isEmpty))
+  (minimizePartition d).map (recreate d pick)
 
 /-- the choice the code makes after the repair of the hash-order dependence: the smallest state -/
 def pickMin (b : Block) : Nat := b.foldl Nat.min (b.headD 0)
